@@ -386,19 +386,13 @@ const (
 // attributeKnown removes the changes that are explained by a recorded finding and counts them.
 func attributeKnown(d []string, virtual bool, res *scanResult) []string {
 	var rest []string
-	cwdFileRemoved := false
-	for _, ch := range d {
-		if ch == "removed: cwd/file" {
-			cwdFileRemoved = true
-		}
-	}
 	rpmDirs := []string{"tree/var/lib/rpm", "tree/usr/lib/sysimage/rpm", "tree/usr/share/rpm"}
 	for _, ch := range d {
 		known := false
 		if virtual {
-			// scan-dotnetpe-temp-cleanup: os.RemoveAll(filepath.Base(tmp copy)) = RemoveAll("file") in the cwd
-			known = strings.HasPrefix(ch, "created: tmp/scalibr-tmp") || strings.HasPrefix(ch, "removed: cwd/file") ||
-				(cwdFileRemoved && strings.HasPrefix(ch, "modified: cwd ("))
+			// scan-dotnetpe-temp-cleanup is fixed (25e1f89e): a temp copy left behind or a deleted ./file
+			// in the working directory is a violation again
+			known = false
 		} else {
 			// scan-rpm-sqlite-wal-created: rpmdb.sqlite is opened read-write; -wal/-shm appear next to it
 			for _, rd := range rpmDirs {
